@@ -90,6 +90,12 @@ func jGap(tag string) []byte {
 	return g
 }
 
+// jGapAfterComma: the blank run after a separator: nothing, one blank, or
+// two characters (CRLF, an empty line, LF + indentation).
+func jGapAfterComma(tag string) []byte {
+	return []byte([]string{"", " ", "\n", "\r\n", "\n\n", "\n\t", "\r\r"}[zzverif.IntRange(tag+"gap", 0, 6)])
+}
+
 func jSkeleton() []byte {
 	mp := zzverif.Bound("pieces", 1, 2)
 	switch zzverif.IntRange("skeleton", 0, 7) {
@@ -98,14 +104,14 @@ func jSkeleton() []byte {
 	case 1:
 		return vJoin([]byte("{"), jGap("g0."), jString("k.", mp), jGap("g1."), []byte(":"), jScalar("v.", 1), []byte("}"))
 	case 2:
-		return vJoin([]byte("["), jScalar("v.", 1), []byte(","), jGap("g0."), jString("w.", 1), []byte("]"))
+		return vJoin([]byte("["), jScalar("v.", 1), []byte(","), jGapAfterComma("g0."), jString("w.", 1), []byte("]"))
 	case 3:
 		k1 := jString("k.", 1)
 		k2 := jString("l.", 1)
 		a, _ := zzjson.Decode(k1)
 		b, _ := zzjson.Decode(k2)
 		zzverif.Assume(!zzjson.Same(a, b)) // duplicate keys are outside the property
-		return vJoin([]byte("{"), k1, []byte(":1,"), jGap("g0."), k2, []byte(`:"x"}`))
+		return vJoin([]byte("{"), k1, []byte(":1,"), jGapAfterComma("g0."), k2, []byte(`:"x"}`))
 	case 4:
 		return vJoin([]byte(`{"a":[`), jScalar("v.", 1), []byte(`],"b":{`), jString("k.", 1), []byte(`:null}}`))
 	case 5:
